@@ -31,6 +31,7 @@ type LoopSpec struct {
 	Decreases  *Clause
 	Holds      []string // ghost tokens held in the loop body
 	Modifies   []string
+	ModSpecs   []*ModSpec
 	HasMod     bool
 }
 
@@ -73,6 +74,7 @@ type FuncContract struct {
 	Defaults   string
 	Aliases    []string
 	Sites      []*SiteSpec
+	FreeVars   []VarDecl // (closures) captured variables visible in the contract, by name
 	Stable     bool // (interface / extern methods) the single result is a function of the receiver identity only
 }
 
@@ -118,7 +120,7 @@ type ContractFile struct {
 var clauseKeywords = map[string]bool{
 	"property": true, "requires": true, "ensures": true, "modifies": true, "pure": true,
 	"safe": true, "loop": true, "assume": true, "trusted": true, "alloc_bound": true,
-	"holds": true, "spawned": true, "terminates": true, "alias": true, "callsite": true, "stable": true,
+	"holds": true, "spawned": true, "terminates": true, "alias": true, "callsite": true, "stable": true, "freevars": true,
 }
 
 var labelRe = regexp.MustCompile(`\s:([A-Za-z_][A-Za-z0-9_]*)\s*$`)
@@ -337,6 +339,15 @@ func ParseContractFile(path string) (*ContractFile, error) {
 			cur.AllocBound = rest
 		case "holds":
 			cur.Holds = append(cur.Holds, strings.Fields(rest)...)
+		case "freevars":
+			for _, v := range splitTop(rest, ',') {
+				v = strings.TrimSpace(v)
+				if v == "" {
+					continue
+				}
+				k := strings.IndexAny(v, " \t")
+				cur.FreeVars = append(cur.FreeVars, VarDecl{v[:k], strings.TrimSpace(v[k+1:])})
+			}
 		case "stable":
 			cur.Stable = true
 			cur.HasMod = true
